@@ -67,14 +67,15 @@ def gen_cases(tier, seed):
             for r in range(5):
                 cases.append({"cfg": cfg, "side": side, "round": r, "wrong": False, "drop": None})
     rng = random.Random(99 + seed)
-    n = 300 if tier == "quick" else 6000
+    n = 1500 if tier == "quick" else 20000
     for i in range(n):
         cfg = base(rng.choice(["ack", "unack"]), rng.random() < 0.5, rng.random() < 0.5, rng.choice(["crc32", "crc32c", "modular", "null"]),
                    rng.choice([0, 3, 4, 9, 13, 25]))
         if cfg["cks"] in ("modular", "null") and rng.random() < 0.7:
             cfg["mode"] = "ack"
         cfg["imm_nak"] = rng.random() < 0.5
-        cases.append({"cfg": cfg, "side": rng.choice("SD"), "round": rng.randrange(0, 14), "wrong": rng.random() < 0.1,
+        cfg["seg"] = rng.choice([3, 4, 5, 10])  # prefixes which are not a multiple of the checksum word size
+        cases.append({"cfg": cfg, "side": rng.choice("SD") if i % 3 else "S", "round": rng.randrange(0, 14), "wrong": rng.random() < 0.1,
                       "drop": None, "rand": seed * 1_000_003 + i})
     return cases
 
